@@ -190,6 +190,9 @@ class Inotify:
         self._event_mask = event_mask
         self._follow_symlink = follow_symlink
         self._is_recursive = recursive
+        self._moved_from_events: dict[int, InotifyEvent] = {}
+        # Watch descriptor of a moved directory, by the cookie of its IN_MOVED_FROM, until the move is resolved.
+        self._moved_from_wds: dict[int, int] = {}
         try:
             if os.path.isdir(path):
                 self._add_dir_watch(path, event_mask, recursive=recursive)
@@ -198,9 +201,6 @@ class Inotify:
         except OSError:
             self._close_resources()
             raise
-        self._moved_from_events: dict[int, InotifyEvent] = {}
-        # Watch descriptor of a moved directory, by the cookie of its IN_MOVED_FROM, until the move is resolved.
-        self._moved_from_wds: dict[int, int] = {}
 
     @property
     def event_mask(self) -> int:
